@@ -119,6 +119,10 @@ func init() {
 					}
 				}
 			}
+			for _, st := range av1HostileStreams() {
+				emit(1301, TI(100), TB(st))
+				emit(1301, TI(4), TB(st))
+			}
 			for i := 0; i < n; i++ {
 				c := r.Fork(uint64(i))
 				mtu := func() int64 {
@@ -175,6 +179,10 @@ func init() {
 				emit(1402, TI(0), ps)
 				emit(1402, TI(1), ps)
 				emit(1604, TB(append([]byte{}, b...)))
+			}
+			for _, pl := range av1HostilePayloads() {
+				emit(1302, TList{TB(pl)})
+				emit(1303, TList{TB(pl)})
 			}
 			rec = func(cur []byte) {
 				emitAll(cur)
@@ -356,6 +364,11 @@ func init() {
 					}
 					if c.Intn(8) == 0 {
 						hist = append(hist, c.Bytes(c.Intn(10)))
+					}
+					if !isH264 && c.Intn(6) == 0 {
+						// garbage with an element length beyond every buffer (and beyond an int)
+						hp := av1HostilePayloads()
+						hist = append(hist, hp[c.Intn(len(hp))])
 					}
 					ps := TList{}
 					for _, x := range hist {
